@@ -299,3 +299,93 @@ Proof.
   eapply (glb_loop_ok fuel max_iter 1 ms cells); eauto; intros; try lia.
 Qed.
 End Step.
+
+(* the invariant at the start of glbfloor (the initial allocation of the die) *)
+Lemma Inv_initial aeps die ms cells :
+  accepted aeps cells -> all_inside die (map crect cells) -> names_ok ms ->
+  (forall m, In m ms -> mfixed m = true -> owns m cells) ->
+  (forall m, In m ms -> mfixed m = true -> in_box die (mcenter m)) ->
+  Inv aeps die ms ms cells.
+Proof.
+  intros. constructor; auto. clear. induction ms; constructor; auto using track_refl.
+Qed.
+
+(* the centre of a fixed module (area-weighted centre of its rectangles, computed by the
+   netlist) lies in the die when its rectangles do *)
+Lemma div_bounds (lo hi s a : Qc) : 0 < a -> lo * a <= s -> s <= hi * a -> lo <= s / a /\ s / a <= hi.
+Proof.
+  intros Ha H1 H2. assert (Na : a <> 0) by (intro Z; rewrite Z in Ha; clear - Ha; qlra).
+  assert (E : s = (s / a) * a) by (field; exact Na).
+  generalize dependent (s / a). intros q E. subst s. clear - Ha H1 H2. split; qnra.
+Qed.
+Theorem centroid_in_box die rs : rs <> [] ->
+  Forall (fun r => wf r /\ is_inside r die = true) rs -> in_box die (centroid rs).
+Proof.
+  intros Hne F.
+  assert (Fx : Forall (fun r => 0 < area r /\ xmin die <= cx r /\ cx r <= xmax die) rs).
+  { eapply Forall_impl; [|exact F]. cbv beta. intros r [[W H] I]. apply is_inside_coords in I.
+    destruct I as (I1 & I2 & I3 & I4). split; [apply mul_pos_pos; auto|]. unfold xmin, xmax in *. split; qlra. }
+  assert (Fy : Forall (fun r => 0 < area r /\ ymin die <= cy r /\ cy r <= ymax die) rs).
+  { eapply Forall_impl; [|exact F]. cbv beta. intros r [[W H] I]. apply is_inside_coords in I.
+    destruct I as (I1 & I2 & I3 & I4). split; [apply mul_pos_pos; auto|]. unfold ymin, ymax in *. split; qlra. }
+  assert (Pa : 0 < rects_area rs).
+  { destruct rs as [|r rs]; [congruence|]. unfold rects_area. apply (Qcsum_pos _ (area r)).
+    - apply Forall_forall. intros x Hx. apply in_map_iff in Hx. destruct Hx as (r' & <- & Hr').
+      rewrite Forall_forall in Fx. destruct (Fx r' Hr') as [P _]. apply Qclt_le_weak. exact P.
+    - left. reflexivity.
+    - inversion Fx; tauto. }
+  destruct (weighted_bounds _ _ _ cx Fx) as [X1 X2]. destruct (weighted_bounds _ _ _ cy Fy) as [Y1 Y2].
+  unfold in_box, centroid. cbn [fst snd]. unfold rects_momx, rects_momy.
+  destruct (div_bounds _ _ _ _ Pa X1 X2). destruct (div_bounds _ _ _ _ Pa Y1 Y2). tauto.
+Qed.
+
+(* with an iteration limit the loop needs at most max_iter + 1 passes: fuel is then no restriction
+   (termination for max_iter = None is NOT proved) *)
+Lemma glb_loop_bounded solver aeps t k : forall fuel n ms cells,
+  (1 <= fuel)%nat -> (k + 2 <= fuel + n)%nat ->
+  glb_loop solver aeps t fuel (Some k) n ms cells <> OutOfFuel.
+Proof.
+  induction fuel as [|f IH]; intros n ms cells H1 H2. lia.
+  cbn [glb_loop]. destruct (n <=? k)%nat eqn:T; [|discriminate]. apply Nat.leb_le in T.
+  assert (G : forall ms' cells', glb_loop solver aeps t f (Some k) (S n) ms' cells' <> OutOfFuel)
+    by (intros; apply IH; lia).
+  destruct (1 <? n)%nat.
+  - destruct (must_be_refined t cells); [|discriminate].
+    destruct (refine aeps t 1 cells); [|discriminate].
+    destruct (optimize solver aeps t n ms l) as [[? ?]|]; [apply G|discriminate].
+  - destruct (optimize solver aeps t n ms cells) as [[? ?]|]; [apply G|discriminate].
+Qed.
+
+(* ------------------------------------------------------------------ *)
+(* statements in the form used by Properties/C10.v                     *)
+(* ------------------------------------------------------------------ *)
+Theorem extract_alloc_ok sol eps tol t aeps die mods cells0 :
+  SolOK eps tol t die mods cells0 sol -> t <= 1 -> accepted aeps cells0 -> names_ok mods ->
+  let rects := map crect cells0 in
+  let out := extract_cells sol t mods rects in
+  sublist (map crect out) rects /\
+  (all_inside die rects -> all_inside die (map crect out)) /\
+  (pairwise_no_ov rects -> pairwise_no_ov (map crect out)) /\
+  no_ov_rects aeps (map crect out) /\
+  ratios_in_unit out /\
+  cell_sums_le (1 + tol) out /\
+  (out <> [] -> accepted aeps out /\ extract_cells sol t mods rects = out /\
+                mk_allocation aeps out = Some out).
+Proof.
+  intros OK Ht1 Acc Names rects out.
+  destruct (extract_alloc_ok_sec sol eps tol t aeps die mods cells0 OK Ht1 Acc Names) as (SL & NO & RT & SM & _ & AC).
+  fold rects in SL, NO, RT, SM, AC. fold out in SL, NO, RT, SM, AC.
+  split; [exact SL|]. split; [intro H; eapply sublist_Forall; eauto|].
+  split; [rewrite !pairwise_no_ov_is; apply pairwise_sublist; exact SL|].
+  split; [apply no_overlap_iff; exact NO|]. split; [exact RT|]. split; [exact SM|].
+  intro Hne. split; [auto|]. split; [reflexivity|]. apply AC. exact Hne.
+Qed.
+
+Theorem glb_partial eps tol t aeps die solver fuel max_iter ms cells ms' cells' :
+  0 < t -> t <= 1 -> tol <= 1 - t ->
+  max_iter <> Some 0%nat ->
+  Inv aeps die ms ms cells ->
+  sol_ok_along solver aeps t eps tol die fuel max_iter 1 ms cells ->
+  glbfloor solver aeps t fuel max_iter ms cells = Finished ms' cells' ->
+  GlbOK aeps tol die ms ms' cells'.
+Proof. intros. eapply glb_partial_thm; eauto. Qed.
